@@ -371,6 +371,13 @@ func (ei *resourceInformer) handleWatchEvent(object interface{}, eventType kemty
 		if skipEvent {
 			return
 		}
+		// The informer reports every object of its initial list as Added. An object that
+		// is already in the cache (it was listed before the informer started) and comes
+		// with a different checksum has been modified since: the hook knows it from its
+		// snapshot, so the change is a Modified event for executeHookOnEvent.
+		if eventType == kemtypes.WatchEventAdded && objectInCache {
+			eventType = kemtypes.WatchEventModified
+		}
 
 	case kemtypes.WatchEventDeleted:
 		ei.cacheLock.Lock()
